@@ -285,6 +285,31 @@ pub fn c12(tier: &str, seed: u64) -> i32 {
         }
     }
     ctx.run.add("golden_images", images);
+    // N-version check of the oracle itself: a second decoder, written independently in Python from the
+    // same documentation (notes/decoder_prototype.py), must accept every golden image as well
+    let proto = crate::report::verif_root().join("notes/decoder_prototype.py");
+    if proto.exists() {
+        for kt in KtId::ALL {
+            for hist in ["inserts", "deletes-overwrites", "large-slots"] {
+                let dir = root.join(kt.name()).join(hist);
+                match std::process::Command::new("python3").arg(&proto).arg(&dir).output() {
+                    Ok(o) if o.status.success() && String::from_utf8_lossy(&o.stdout).contains("OK n=") => ctx.run.add("python_decoder_agreements", 1),
+                    Ok(o) => {
+                        let msg = format!("the Python decoder rejects golden/{}/{hist}: {}", kt.name(), String::from_utf8_lossy(&o.stderr).lines().last().unwrap_or(""));
+                        ctx.run.notes.push(msg);
+                        ctx.run.add("python_decoder_disagreements", 1);
+                    }
+                    Err(_) => {
+                        ctx.run.notes.push("python3 not available: the second decoder was not run".into());
+                        break;
+                    }
+                }
+            }
+        }
+        if ctx.run.get("python_decoder_disagreements") > 0 {
+            crate::report::machinery_failure("the two independently written decoders disagree on a golden image (oracle defect, no verdict)");
+        }
+    }
     // capped runs are expected here (the point is the start state and its neighbourhood)
     let rule = "golden images written by the pinned release (5 key types x {inserts only; deletes+overwrites with non-empty free lists; large slots with overwrites}) are start states of the image-graph search: (1) the independent decoder, written from the documentation, must recover the recorded contents from the released bytes (header layout, /8 offset encoding, vu64, placement hash); (2) on the start state and every successor the current build must answer get/includes_key/len/is_empty, all iterators, re-open under other parameters and the statistics per the model, leave the files byte-identical under a read-only session, and obey the allocation rule; successors come from every history over two existing keys and one new key, breadth first to closure or the stated cap. non-trivial = states decoded whose contents come from the release-written image";
     ctx.finish_model_checking(rule, &["decoded_states"])
